@@ -3965,6 +3965,10 @@ class ProfilingDataset(Dataset):
     def indexable(self):
         return self.input_dataset.indexable
 
+    @property
+    def ordered(self):
+        return self.input_dataset.ordered
+
     def keys(self):
         return self.input_dataset.keys()
 
